@@ -521,10 +521,10 @@ static void do_empty(int q)
 	h_end(h, !!r, R_NA);
 }
 
-enum { OP_ENQ, OP_DEQ, OP_SPLICE, OP_ITER, OP_POPALL, OP_EMPTY, OP_GATE, OP_YIELD, OP_BAD };
+enum { OP_ENQ, OP_DEQ, OP_SPLICE, OP_ITER, OP_POPALL, OP_EMPTY, OP_GATE, OP_YIELD, OP_BARRIER, OP_MKHELPER, OP_BAD };
 static NS int fetch(int t, int i, long *a)
 {
-	static const char *names[] = { "enq", "deq", "splice", "iter", "popall", "empty", "gate", "yield" };
+	static const char *names[] = { "enq", "deq", "splice", "iter", "popall", "empty", "gate", "yield", "barrier", "mkhelper" };
 	const struct ds_op *o = ds_op(t, i);
 	a[0] = o->a[0]; a[1] = o->a[1]; a[2] = o->a[2];
 	for (int k = 0; k < OP_BAD; k++) if (!strcmp(o->name, names[k])) return k;
@@ -536,6 +536,7 @@ static NS void solo_inflight_class(void)
 	/* non-trivial for C17: at the freeze some other thread was inside an operation */
 	for (int i = 0; i < nhist; i++) if (hist[i].ret == ~0ul && hist[i].thr != ds_scen_index()) ds_flag(CF_SOLO_INFLIGHT);
 }
+static int uses_rcu(void);
 static void run_program(int t)
 {
 	int n = ds_nops(t);
@@ -553,6 +554,10 @@ static void run_program(int t)
 		case OP_EMPTY: do_empty(q); break;
 		case OP_GATE: ds_solo_gate(); set_solo(); solo_inflight_class(); break;
 		case OP_YIELD: ds_yield(); break;
+		/* call_rcu housekeeping by other threads (C17: a thread may be suspended inside it, holding the library's call_rcu mutex, while the solo thread
+		 * dequeues - rculfqueue hands its dummy nodes to call_rcu) */
+		case OP_BARRIER: if (uses_rcu()) F(barrier)(); break;
+		case OP_MKHELPER: if (uses_rcu()) { struct call_rcu_data *c = F(create_call_rcu_data)(0, -1); if (c) F(call_rcu_data_free)(c); } break;
 		}
 	}
 	ds_op_begin(-1);
